@@ -68,6 +68,54 @@ def teval(t, env, hooks=None):
                 return b[i]
             except Exception:
                 return UNKNOWN
+        if k == "slice":
+            vals = [rec(a) for a in x[1:4]]
+            if any(v is UNKNOWN for v in vals):
+                return UNKNOWN
+            try:
+                return slice(*vals)
+            except Exception:
+                return UNKNOWN
+        if k == "call" and x[1][0] == "sym" and x[1][1] in ("tuple", "list", "slice", "len", "zip", "reversed", "sorted", "min", "max", "sum", "abs", "int", "bool") and not x[3]:
+            vals = [rec(a) for a in x[2]]
+            if any(v is UNKNOWN for v in vals):
+                return UNKNOWN
+            try:
+                fn = {"tuple": tuple, "list": tuple, "slice": slice, "len": len, "zip": lambda *a: tuple(zip(*a)), "reversed": lambda a: tuple(reversed(a)),
+                      "sorted": lambda a: tuple(sorted(a)), "min": min, "max": max, "sum": sum, "abs": abs, "int": int, "bool": bool}[x[1][1]]
+                return fn(*vals)
+            except Exception:
+                return UNKNOWN
+        if k == "op" and x[1] == "comp":
+            # comprehension: (kind, element, iterable, condition); the element / condition speak about elem(<iterable>) -- and, for
+            # zip(a, b, ..), about elem(a), elem(b), .. -- which are bound to the successive items
+            kind_, elt, it, cnd = x[2][:4]
+            seq = rec(it)
+            if seq is UNKNOWN:
+                return UNKNOWN
+            parts = None
+            if it[0] == "call" and it[1] == ("sym", "zip"):
+                parts = it[2]
+            out = []
+            try:
+                for v in seq:
+                    env2 = dict(env)
+                    env2[("elem", it)] = v
+                    if parts is not None:
+                        for a_, v_ in zip(parts, v):
+                            env2[("elem", a_)] = v_
+                    c_ = teval(cnd, env2, hooks)
+                    if c_ is UNKNOWN:
+                        return UNKNOWN
+                    if not c_:
+                        continue
+                    e_ = teval(elt, env2, hooks)
+                    if e_ is UNKNOWN:
+                        return UNKNOWN
+                    out.append(e_)
+            except TypeError:
+                return UNKNOWN
+            return tuple(out)
         if k == "ite":
             c = rec(x[1])
             if c is UNKNOWN:
